@@ -79,6 +79,15 @@ class Rule(Expression):
     def __hash__(self) -> int:
         return hash((self.name, self.__class__.__name__))
 
+    def hides_children(self) -> bool:
+        """True if this rule's body is atomic, so its inner pairs are hidden.
+
+        `WHITESPACE` and `COMMENT` bodies are atomic unless marked `$`.
+        """
+        if self.modifier & ATOMIC:
+            return True
+        return self.name in ("COMMENT", "WHITESPACE") and not self.modifier & COMPOUND
+
     def parse(self, state: ParserState, pairs: list[Pair]) -> bool:
         """Attempt to match this expression against the input at `start`."""
         start = state.pos
@@ -104,16 +113,16 @@ class Rule(Expression):
         if not matched:
             return False
 
+        if self.hides_children():
+            # Atomic rule silences children, except under nested `$`/`!` rules.
+            children = atomic_children(children)
+
         if self.modifier & SILENT:
             # Children without an enclosing Pair.
             pairs.extend(children)
             return True
 
         tag: str | None = state.tag_stack.pop() if state.tag_stack else None
-
-        if self.modifier & ATOMIC:  # TODO: COMMENT and WHITESPACE too?
-            # Atomic rule silences children, except under nested `$`/`!` rules.
-            children = atomic_children(children)
 
         pairs.append(
             Pair(
@@ -164,6 +173,10 @@ class Rule(Expression):
 
             children: str = inner_pairs
 
+            if self.hides_children():
+                gen.writeln(f"# Atomic rule: {self.name!r}")
+                children = f"atomic_children({inner_pairs})"
+
             if self.modifier & SILENT:
                 gen.writeln(f"# Silent rule {self.name!r}")
                 gen.writeln(f"if {matched_var}:")
@@ -172,10 +185,6 @@ class Rule(Expression):
                 gen.writeln(f"return {matched_var}")
             else:
                 tag_var = gen.new_temp("tag")
-
-                if self.modifier & ATOMIC:  # TODO: COMMENT and WHITESPACE too?
-                    gen.writeln(f"# Atomic rule: {self.name!r}")
-                    children = f"atomic_children({inner_pairs})"
 
                 pair = (
                     f"Pair("
